@@ -52,7 +52,7 @@ Theorem C18_laws :
      stat a t' = Some (File c) /\ stat b t' = Some (File c) /\ is_dir_at t' (parent (pk b)) = true /\
      (forall q, ~ q `prefix_of` pk b -> t' !! q = t !! q)) /\
   (* moving a file = copy then delete; into the target when that is an existing directory *)
-  (forall a b c t, stat a t = Some (File c) -> p_is_dir b t = false -> ends_sep b = false -> pk a <> pk b ->
+  (forall a b t, p_is_file a t = true -> p_is_dir b t = false -> ends_sep b = false ->
      S_mv a b t = (let '(o, t1) := S_cp a b t in
                    match o with OVal _ => S_rm None [a] t1 | _ => (OErr, t) end)) /\
   (forall a b name t, p_is_dir b t = true -> last (pk a) = Some name ->
@@ -93,6 +93,11 @@ Theorem C18_cp_self_error :
   forall xdc a b c t, stat a t = Some (File c) -> pk b = pk a -> ptr b = false ->
     M_cp xdc a b t = (OErr, t) /\ S_cp a b t = (OErr, t).
 Proof. exact cp_self_error. Qed.
+(* likewise mv of a file onto itself (repaired): error, nothing changes *)
+Theorem C18_mv_self_error :
+  forall prn xmd a b c t, stat a t = Some (File c) -> pk b = pk a -> ptr b = false -> ends_sep b = false ->
+    M_mv prn xmd a b t = (OErr, t) /\ S_mv a b t = (OErr, t).
+Proof. exact mv_self_error. Qed.
 Theorem C18_partial_parents_refuted :
   forall prn xdc xmd,
   let ops := [WriteB w_nx [113%N]] in
